@@ -128,10 +128,18 @@ pub fn zygote_main(cap_secs: u32) {
     }
 }
 
+thread_local! {
+    /// extra environment for children spawned by this thread (the minimiser shortens the
+    /// stall timeout of its candidate runs when it chases an operation that never returns)
+    pub static CHILD_ENV: std::cell::RefCell<Vec<(String, String)>> = const { std::cell::RefCell::new(Vec::new()) };
+}
+
 fn spawn_limited(args: &[&str], vmem_kb: u64) -> std::io::Result<Child> {
     let exe = self_exe();
     let script = format!("ulimit -v {}; exec \"$0\" \"$@\"", vmem_kb);
+    let extra: Vec<(String, String)> = CHILD_ENV.with(|e| e.borrow().clone());
     Command::new("sh")
+        .envs(extra)
         .arg("-c")
         .arg(script)
         .arg(exe)
